@@ -503,3 +503,150 @@ func g13Fields(c *Ctx) {
 		c.Rep.fail(Finding{Rule: "G13", Key: "G13|unvendor|vacuity", Kind: "undecided", Where: []string{c.Repo.pos(uv.Decl.Pos())}, Msg: "unvendor no longer searches for vendor path elements with constant needles"})
 	}
 }
+
+// G9b — method-lookup predicates (equalMethodInputParam, compareMethodInputParam, hasHashMethod, hasDeepCopyMethod):
+// they decide whether a component's own method replaces the derived code. (1) they may only look at the methods
+// declared on the named type itself (typ.Method(i), i < typ.NumMethods()): types.NewMethodSet / LookupFieldOrMethod also
+// find methods promoted from embedded fields, whose receiver is only a part of the value; (2) tabulated by abstract
+// interpretation: every path that answers "has the method" has tested the method's name, its parameter count, its result
+// count and (where the contract fixes it) the basic kind of its result.
+type methodSpec struct {
+	fn       string
+	method   string
+	nparams  int
+	nresults int
+	kind     types.BasicKind // types.Invalid: no result kind to test
+}
+
+func g9Methods(c *Ctx, specs ...methodSpec) {
+	for _, sp := range specs {
+		fi := c.Repo.lookup(sp.fn)
+		if fi == nil {
+			c.Rep.fail(Finding{Rule: "G9", Key: "G9|" + sp.fn + "|missing", Kind: "undecided", Msg: "method predicate " + sp.fn + " not found"})
+			continue
+		}
+		info := fi.Pkg.TypesInfo
+		banned := ""
+		ast.Inspect(fi.Decl, func(n ast.Node) bool {
+			call, ok := n.(*ast.CallExpr)
+			if !ok {
+				return true
+			}
+			if fn, ok := callee(info, call).(*types.Func); ok && fn.Pkg() != nil && fn.Pkg().Path() == "go/types" {
+				switch fn.Name() {
+				case "NewMethodSet", "LookupFieldOrMethod", "MissingMethod", "Implements", "Lookup":
+					banned = fn.Name()
+				}
+			}
+			return true
+		})
+		if banned != "" {
+			c.Rep.fail(Finding{Rule: "G9", Key: "G9|" + sp.fn + "|promoted-methods", Where: []string{c.Repo.pos(fi.Decl.Pos())},
+				Msg: fmt.Sprintf("%s looks the %s method up with types.%s, which also finds methods promoted from embedded fields: a struct that merely embeds a type with a %s method would be handled by that method, which sees only the embedded part of the value", sp.fn, sp.method, banned, sp.method)})
+			continue
+		}
+		or := &Oracle{}
+		accepted := 0
+		for n := 0; n < 4000; n++ {
+			or.pos = 0
+			ar := []int{1, 0, 2}
+			in := &Interp{repo: c.Repo, plugin: "derive", decls: c.R.decls, or: or, memo: map[string]int{}, shape: 1, arities: ar,
+				preds: map[string]Value{}, stack: map[*ast.FuncDecl]int{}, imports: map[string]int{}, importUse: map[string]bool{}, holes: map[string]*Hole{}, g9mode: true}
+			arg := &VOpaque{Origin: "t", Kind: "*types.Named"}
+			var res Value
+			msg := ""
+			func() {
+				defer func() {
+					if e := recover(); e != nil {
+						if a, ok := e.(abort); ok {
+							msg = a.kind + ": " + a.msg
+							return
+						}
+						msg = fmt.Sprint(e)
+					}
+				}()
+				res = in.callFunc(&VFunc{Decl: fi.Decl, Pkg: fi.Pkg}, []Value{arg}, token.NoPos)
+			}()
+			if msg != "" {
+				c.Rep.fail(Finding{Rule: "G9", Key: "G9|" + sp.fn + "|undecided", Kind: "undecided", Where: []string{c.Repo.pos(fi.Decl.Pos())}, Msg: sp.fn + " cannot be tabulated: " + msg})
+				break
+			}
+			yes := false
+			switch v := res.(type) {
+			case VBool:
+				yes = v.Known && v.V
+				if !v.Known {
+					yes = true // depends on something unmodelled: treat as a possible acceptance
+				}
+			case *VPtr:
+				yes = true
+			case VNil:
+			default:
+				yes = true
+			}
+			if yes {
+				accepted++
+				var missing []string
+				has := func(pred func(d Decision) bool) bool {
+					for _, d := range in.decisions {
+						if pred(d) {
+							return true
+						}
+					}
+					return false
+				}
+				// name test: a comparison of a method's Name() with the literal, taken on its "equal" outcome
+				if !has(func(d Decision) bool {
+					if !strings.Contains(d.Sym, ".Name()") || !strings.HasSuffix(strings.TrimPrefix(d.Sym, "B:"), sp.method) {
+						return false
+					}
+					neq := strings.Contains(d.Sym, "!="+sp.method)
+					return (neq && d.Choice == 1) || (!neq && d.Choice == 0)
+				}) {
+					missing = append(missing, "the method's name")
+				}
+				arity := func(which string, want int) bool {
+					return has(func(d Decision) bool {
+						return strings.HasPrefix(d.Sym, "N:") && strings.HasSuffix(d.Sym, "."+which+"()") && d.Choice < len(ar) && ar[d.Choice] == want
+					})
+				}
+				if !arity("Params", sp.nparams) {
+					missing = append(missing, fmt.Sprintf("that it takes %d parameter(s)", sp.nparams))
+				}
+				if !arity("Results", sp.nresults) {
+					missing = append(missing, fmt.Sprintf("that it has %d result(s)", sp.nresults))
+				}
+				if sp.kind != types.Invalid {
+					k := fmt.Sprint(int(sp.kind))
+					if !has(func(d Decision) bool {
+						if !strings.Contains(d.Sym, ".Kind()") {
+							return false
+						}
+						neq := strings.HasSuffix(d.Sym, "!="+k)
+						eq := strings.HasSuffix(d.Sym, "=="+k)
+						return (neq && d.Choice == 1) || (eq && d.Choice == 0)
+					}) {
+						missing = append(missing, "the basic kind of its result")
+					}
+				}
+				if len(missing) == 0 {
+					c.Rep.pass("G9")
+				} else {
+					var ss []string
+					for _, d := range in.decisions {
+						ss = append(ss, fmt.Sprintf("%s=%d/%d", d.Sym, d.Choice, d.N))
+					}
+					c.Rep.fail(Finding{Rule: "G9", Key: "G9|" + sp.fn + "|unchecked " + strings.Join(missing, ","), Where: []string{c.Repo.pos(fi.Decl.Pos())},
+						Msg:    fmt.Sprintf("%s accepts a method as the type's own %s without having tested %s: a method of a different shape would be called by the generated code (compile error or wrong semantics)", sp.fn, sp.method, strings.Join(missing, " and ")),
+						Detail: "abstract path: " + strings.Join(ss, "; ")})
+				}
+			}
+			if !or.next() {
+				break
+			}
+		}
+		if accepted == 0 {
+			c.Rep.fail(Finding{Rule: "G9", Key: "G9|" + sp.fn + "|never-accepts", Kind: "undecided", Where: []string{c.Repo.pos(fi.Decl.Pos())}, Msg: sp.fn + ": no abstract path finds a method (the tabulation is vacuous)"})
+		}
+	}
+}
